@@ -237,10 +237,12 @@ Definition preinit_of (fns : list lkfn) (ctors : list string) : bool := existsb 
 
 (** optional guards: a libc function that takes a libc-internal lock, called with the repository mutex held and nothing else
     (the fork handlers hold that mutex across fork(), so no thread is inside the libc function on the library's behalf at that instant) *)
-Definition libc_guards : list (string * string) := [("snoopy_tsrm_localtime_r", "localtime_r")].
+Definition libc_guards : list (string * list string) :=
+  [("snoopy_tsrm_localtime_r", ["localtime_r"]); ("snoopy_tsrm_strftime", ["strftime"]);
+   ("snoopy_tsrm_getutline", ["setutent"; "getutline_r"; "endutent"])].
 Definition is_libc_guard (fns : list lkfn) (name : string) : bool :=
   match find (fun g => String.eqb (fst g) name) libc_guards, find_fn fns name with
-  | Some (_, libc), Some f => lks_eqb (norm (lk_body f)) [KLock M; KExt libc; KUnlock M; KReturn]
+  | Some (_, libc), Some f => lks_eqb (norm (lk_body f)) ([KLock M] ++ map KExt libc ++ [KUnlock M; KReturn])
   | _, _ => false
   end.
 Definition guard_names (fns : list lkfn) : list string := filter (is_libc_guard fns) (map fst libc_guards).
@@ -564,7 +566,10 @@ Section Classify.
     let eff := eff_accs g in
     let writes := filter (fun a => is_write a || (negb (String.eqb (g_name g) "") && existsb (fun p => true) (pointers_to g) && is_pointee_access a && pointee_written a)) eff in
     if g_const g then Some PImmutable
-    else if g_tls g then Some PPerThread
+    (* a thread-local object is harmless only while no wrapped call writes it: per-thread state that a call leaves behind outlives the call
+       ("once all calls have returned the library holds no per-thread state") *)
+    else if g_tls g && forallb (fun a => negb (str_in (a_fn a) reach)) (filter is_write eff) then Some PPerThread
+    else if g_tls g then None
     else if forallb (fun a => String.eqb (a_kind a) "arg"
                               && (callee_in (a_detail a) sync_callees
                                   || (callee_in (a_detail a) sync_init_callees && (String.eqb (a_fn a) once_fn || str_in (a_fn a) single_thread_fns)))) eff
@@ -693,9 +698,13 @@ Proof.
   apply (in_map (fun f0 => (f ++ " -> " ++ f0)%string)) in Hf. rewrite E in Hf. contradiction.
 Qed.
 
-(** libc functions that are reentrant but take libc's timezone lock, which fork() does not reset: a wrapped call may reach them only through
-    a guard ([libc_guards]).  [tz_unguarded] lists the reachable callers that are not guards. *)
-Definition tz_lock_calls : list string := ["localtime_r"; "mktime"; "tzset"; "ctime_r"; "timelocal"; "localtime_rz"; "strptime"].
+(** libc functions that are reentrant but take a libc-internal lock which fork() does not reset (the timezone lock: localtime_r, mktime, tzset,
+    strftime for %s / %Z, ...; the utmp lock: setutent, getutline_r, endutent, ...): a wrapped call may reach them only through a guard
+    ([libc_guards]).  [tz_unguarded] lists the reachable callers that are not guards. *)
+Definition tz_lock_calls : list string :=
+  ["localtime_r"; "mktime"; "tzset"; "ctime_r"; "timelocal"; "localtime_rz"; "strptime"; "strftime"; "strftime_l"; "wcsftime";
+   "setutent"; "endutent"; "getutline_r"; "getutent_r"; "getutid_r"; "pututline"; "updwtmp"; "logwtmp"; "utmpname";
+   "setutxent"; "endutxent"; "getutxline"; "getutxent"; "getutxid"; "pututxline"].
 Definition tz_unguarded (fns : list lkfn) (refs : list (string * list string)) (reach : list string) : list string :=
   flat_map (fun e => if str_in (fst e) reach && existsb (fun f => str_in f tz_lock_calls) (snd e) && negb (str_in (fst e) (guard_names fns))
                      then [fst e] else []) refs.
